@@ -995,7 +995,17 @@ theorem indexerL_rel {lo hi : Lim} (h : Lim.le lo hi) (c : ECfg) {r r' : ObjL} (
 theorem memberVL_rel {lo hi : Lim} (h : Lim.le lo hi) (c : ECfg) (name : Name) (x : Value) :
     RelR Eq (memberVL c lo name x) (memberVL c hi name x) := by
   unfold memberVL
-  apply RelR.bind (withConv_rel (measure_rel h _)); intro v v' hv; subst hv
+  have h1 : RelR Eq
+      (match Eval.memberV name x with
+        | .error .unknownFunction => (do EvalLimits.measure lo (sizeofV c x); .error (.base .unknownFunction) : RL Value)
+        | res => withConv res (EvalLimits.measure lo (sizeofV c x)))
+      (match Eval.memberV name x with
+        | .error .unknownFunction => (do EvalLimits.measure hi (sizeofV c x); .error (.base .unknownFunction) : RL Value)
+        | res => withConv res (EvalLimits.measure hi (sizeofV c x))) := by
+    split
+    · exact RelR.bind (measure_rel h _) (fun _ _ _ => RelR.err _)
+    · exact withConv_rel (measure_rel h _)
+  apply RelR.bind h1; intro v v' hv; subst hv
   exact RelR.bind (measure_rel h _) (fun _ _ _ => RelR.ok rfl)
 
 theorem memberOfL_iter {lo hi : Lim} (h : Lim.le lo hi) (c : ECfg) (name : Name) {r r' : ObjL} (hr : RelO r r') :
@@ -1022,7 +1032,7 @@ theorem memberOfL_rel {lo hi : Lim} (h : Lim.le lo hi) (c : ECfg) (name : Name) 
       exact RelR.refl RelO.refl _
     · split
       · exact memberOfL_iter h c name (RelO.refl _)
-      · exact RelR.err _
+      · exact RelR.bind (measure_rel h _) (fun _ _ _ => RelR.err _)
   | lazy hs => exact memberOfL_iter h c name (RelO.lazy hs)
   | ordered hs => exact memberOfL_iter h c name (RelO.ordered hs)
 
